@@ -229,6 +229,35 @@ func (r *nnsRun) opTransferAlias(w who, delta int64, name, spelled string, to ut
 	return o
 }
 
+// opTransferForward transfers a name to a contract that, from its payment callback, transfers it on to
+// final (it owns the token at that moment, so it may): two ownership changes in one transaction, each
+// announced once, and the read API must show final as the owner with every index updated.
+func (r *nnsRun) opTransferForward(w who, delta int64, name string, probe, final util.Uint160) *chainkit.Outcome {
+	n, exists := r.m.names[name]
+	t0 := int64(r.c.Now()) + 1 + max64(delta, 1)
+	will := exists && !n.tld && t0 < n.exp && r.witnesses(w).has(n.owner) && string(n.owner) != string(probe.BytesBE())
+	cnt := int64(0)
+	if will {
+		cnt = 1
+	}
+	if o := r.c.Invoke(nil, probe, "arm", r.nns, "transfer", []any{final, name, nil}, cnt); !o.Halt {
+		panic(chainkit.HarnessError{Msg: "nns driver: arming the forwarding probe: " + o.Fault})
+	}
+	if !will {
+		return r.opTransfer(w, delta, name, probe)
+	}
+	t := int64(r.c.Now()) + max64(delta, 1)
+	o := r.invoke(w, delta, "transfer", probe, name, nil)
+	what := fmt.Sprintf("transfer(%s -> a contract that forwards it to %s) by %s at t=%d", name, r.names[final], w.desc, t)
+	r.h.Op("%s -> %s", what, o)
+	r.expect(what, o, "true")
+	r.expectTransfers(what, o, []string{fmt.Sprintf("%x>%x:%s", n.owner, probe.BytesBE(), name), fmt.Sprintf("%x>%x:%s", probe.BytesBE(), final.BytesBE(), name)})
+	n.owner = final.BytesBE()
+	n.admin = nil
+	r.h.Mark("transfer-forwarded-by-the-receiving-contract")
+	return o
+}
+
 const tenYearsMs = 10 * msPerYear
 
 // opRenew renews at now+delta.
